@@ -424,3 +424,51 @@ def named_eval(ctx, mo, what, values, data=None, pixels=None, keyed='dict'):
         ctx.extra['calc_calls'] = cc.calls - c0
     ctx.extra['names'] = names
     return out
+
+
+@op('rigid_model_probe')
+def rigid_model_probe(ctx, mo, spec, seed=0):
+    """A model built on a RigidCluster: the scatterer built from parameter
+    values against the public route (Spheres of the substituted members,
+    .rotated(rotation).translated(translation))."""
+    from holopy.scattering import Sphere, Spheres
+    m = val(ctx, mo)
+    names = list(m._parameter_names)
+    vec = probe_vector(names, seed)
+    env = dict(zip(names, vec))
+    genv = {n: m.parameters[n].guess for n in names}
+    out = {'names': names, 'vec': vec}
+
+    def sub(site, e):
+        if isinstance(site, dict) and 'p' in site:
+            return e[site['p']]
+        if isinstance(site, list):
+            return [sub(x, e) for x in site]
+        return site
+
+    def reference(e):
+        sph = Spheres([Sphere(n=sub(mm['n'], e), r=sub(mm['r'], e),
+                              center=sub(mm['center'], e))
+                       for mm in spec['members']], warn=False)
+        return sph.rotated(tuple(sub(spec['rotation'], e))).translated(
+            tuple(sub(spec['translation'], e)))
+
+    def describe(sc):
+        return {'class': type(sc).__name__,
+                'centers': [np.array(x.center, dtype=float)
+                            for x in sc.scatterers],
+                'r': [float(x.r) for x in sc.scatterers],
+                'n': [complex(x.n) for x in sc.scatterers]}
+
+    def attempt(key, fn):
+        try:
+            out[key] = fn()
+        except Exception as ex_:
+            out[key] = {'exc': type(ex_).__name__, 'msg': str(ex_)[:200]}
+    attempt('built_list', lambda: describe(
+        m.scatterer_from_parameters(list(vec))))
+    attempt('built_dict', lambda: describe(m.scatterer_from_parameters(env)))
+    attempt('built_guess', lambda: describe(m.initial_guess_scatterer))
+    attempt('ref', lambda: describe(reference(env)))
+    attempt('ref_guess', lambda: describe(reference(genv)))
+    return out
